@@ -60,6 +60,17 @@ async def scenario(loop, plan, r, out):
             orig_n2h(data)
 
         stack.line.n2h.write = rstack_eater
+    if plan.get("rstack_delay"):
+        # a slow NCP: every RSTACK leaves it late, but inside the host's reset timeout
+        orig_n2h_d = stack.line.n2h.write
+
+        def slow_rstack(data):
+            if any(f.get("kind") == "RSTACK" for f in refash.split_wire(data)):
+                loop.call_later(plan["rstack_delay"], orig_n2h_d, data)
+            else:
+                orig_n2h_d(data)
+
+        stack.line.n2h.write = slow_rstack
     if plan.get("lose"):
         idx, k = plan["lose"]
         st_ = {"n": -1, "target": None, "left": k}
@@ -271,6 +282,8 @@ def check(plan) -> Result:
         r.bad("C09:receive-callback-raises", f"{stack.rx_raised[0]}; plan {plan}")
     if plan.get("merge"):
         r.cls("frames-back-to-back-in-one-read")
+    if plan.get("rstack_delay"):
+        r.cls("slow-rstack-inside-the-reset-timeout")
     if plan.get("lose"):
         r.cls(f"one-host-frame-lost-{out.get('lost', 0)}-times-in-a-row")
         if out.get("lost", 0) != plan["lose"][1]:
@@ -421,6 +434,10 @@ def enum_plans(quick):
                     p["spont"] = "absent"
                 out.append(p)
                 out.append(dict(p, use=True))
+    for v in ([4, 8, 14] if quick else VERSIONS):
+        for frac in (0.3, 0.7, 0.98):
+            for second in ("reset", "startup"):
+                out.append({"v": v, "path": "serial", "second": second, "rstack_delay": round(frac * cfg.reset_timeout(), 3)})
     for v in ([4, 8, 13] if quick else VERSIONS):
         for tag_i in range(3):
             A = cfg.ash_attempts()  # "the configured number of attempts": the last one gets through
